@@ -2,4 +2,4 @@ Require Import QtlVerif.JsonDefs QtlVerif.SentryDefs QtlVerif.SrcSentry.
 Require Extraction.
 Require Import ExtrOcamlBasic.
 Definition sentry_format_src := sentry_format src_sentry_cfg.
-Extraction "sentry_model.ml" sentry_format_src prop_c18_b iso_utc iso_decode id128_hex is_hex32 num_value num_in_range int_typed.
+Extraction "sentry_model.ml" sentry_format_src prop_c18_b iso_utc iso_decode id128_hex is_hex32 num_value num_in_range int_typed apply_ops with_ops ids_ok_b.
